@@ -148,10 +148,9 @@ FORMS = ("addgrid", "make_uset", "nastran")
 def _allow(sh, key, n=6):
     """Inputs of a class with a listed finding are generated at most `n` times per
     shard, so that they can never fill the collector's violation list."""
-    k = "cell:finding-class-" + key
-    if sh.counters.get(k, 0) >= n:
-        return False
-    sh.count(k)
+    # every finding these classes were rationed for has been repaired in the repository
+    # (known_findings.json "fixed"): the classes are generated without a cap again
+    sh.count("cell:finding-class-" + key)
     return True
 
 
